@@ -1,6 +1,7 @@
 package state
 
 import (
+	"strings"
 	"time"
 
 	"github.com/ProtonMail/gluon/imap"
@@ -222,4 +223,112 @@ func VerifC15Search() {
 		vsymAssert(vsymOr(vsymAnd(in, want), vsymAnd(vsymNot(in), vsymNot(want))), "message is returned iff it satisfies the key expression")
 	}
 	vsymAssert(pos == len(res), "nothing but messages of the view, ascending, no duplicates")
+}
+
+// ---- text, header and date keys on concrete messages ----
+
+type c15Doc struct {
+	subject, from, to, body string
+	dateHdr                 string // Date: header as written
+	sentY, sentM, sentD     int    // the day the Date header names (disregarding time and zone)
+	internal                time.Time
+}
+
+var c15Docs = []c15Doc{
+	{"Hello World", "alice@example.org", "bob@example.org", "lorem ipsum\r\n", "Wed, 01 Jan 2020 23:30:00 -0200", 2020, 1, 1, time.Date(2020, 1, 1, 0, 0, 0, 0, time.UTC)},
+	{"re: hello", "Bob <BOB@example.org>", "carol@example.org", "dolor sit amet\r\n", "Thu, 02 Jan 2020 00:10:00 +0000", 2020, 1, 2, time.Date(2020, 1, 1, 23, 59, 59, 0, time.UTC)},
+	{"", "dave@example.org", "alice@example.org", "Hello from the body\r\n", "Fri, 03 Jan 2020 12:00:00 +0530", 2020, 1, 3, time.Date(2020, 1, 2, 0, 0, 0, 0, time.UTC)},
+}
+
+func (d c15Doc) literal() string {
+	s := "From: " + d.from + "\r\nTo: " + d.to + "\r\nDate: " + d.dateHdr + "\r\n"
+	if d.subject != "" {
+		s += "Subject: " + d.subject + "\r\n"
+	}
+	return s + "\r\n" + d.body
+}
+
+var c15Needles = []string{"hello", "HELLO", "bob", "example.org", "lorem", "zzz", "o w", ""}
+
+func c15Has(hay, needle string) bool {
+	return strings.Contains(strings.ToLower(hay), strings.ToLower(needle))
+}
+
+// VerifC15Text: SUBJECT / FROM / TO / BODY / TEXT / HEADER and the date keys (BEFORE, ON, SINCE on the internal date,
+// SENTBEFORE, SENTON, SENTSINCE on the Date header) on a view of two concrete messages chosen from a pool, the key
+// optionally under NOT: compared with case-insensitive substring matching on the respective part / with calendar
+// days (disregarding time and zone).
+func VerifC15Text() {
+	w := verifNewWorld(limits.DefaultLimits())
+	a := w.db.AddBox("A", "mb-A", 2)
+	var docs []c15Doc
+	for i := 0; i < 2; i++ {
+		d := c15Docs[vsymChoice("doc", len(c15Docs))]
+		docs = append(docs, d)
+		id := w.addMessage(a, imap.UID(i+1))
+		w.store.data[id.InternalID] = []byte(d.literal())
+		m := w.db.Msg(id.InternalID)
+		m.Date = d.internal
+		m.Size = len(d.literal())
+	}
+	st := w.newState(1)
+	ctx := contexts.NewDisableParallelismCtx(ctxFor(st), true)
+	var mbox *Mailbox
+	if err := st.Select(ctx, "A", func(m *Mailbox) error { mbox = m; return nil }); err != nil {
+		panic(err)
+	}
+	needle := c15Needles[vsymChoice("needle", len(c15Needles))]
+	day := 1 + vsymChoice("day", 3)
+	date := time.Date(2020, 1, day, 0, 0, 0, 0, time.UTC)
+	var key command.SearchKey
+	var ref func(d c15Doc) bool
+	switch vsymChoice("key", 12) {
+	case 0:
+		key, ref = &command.SearchKeySubject{Value: needle}, func(d c15Doc) bool { return c15Has(d.subject, needle) }
+	case 1:
+		key, ref = &command.SearchKeyFrom{Value: needle}, func(d c15Doc) bool { return c15Has(d.from, needle) }
+	case 2:
+		key, ref = &command.SearchKeyTo{Value: needle}, func(d c15Doc) bool { return c15Has(d.to, needle) }
+	case 3:
+		key, ref = &command.SearchKeyBody{Value: needle}, func(d c15Doc) bool { return c15Has(d.body, needle) }
+	case 4:
+		key, ref = &command.SearchKeyText{Value: needle}, func(d c15Doc) bool { return c15Has(d.literal(), needle) }
+	case 5:
+		field := []string{"Subject", "subject", "X-Missing"}[vsymChoice("field", 3)]
+		key = &command.SearchKeyHeader{Field: field, Value: needle}
+		ref = func(d c15Doc) bool {
+			return field != "X-Missing" && c15Has(d.subject, needle) || field == "X-Missing" && needle == ""
+		}
+	case 6:
+		key, ref = &command.SearchKeyBefore{Value: date}, func(d c15Doc) bool { return d.internal.Before(date) }
+	case 7:
+		key, ref = &command.SearchKeyOn{Value: date}, func(d c15Doc) bool { return d.internal.Day() == day }
+	case 8:
+		key, ref = &command.SearchKeySince{Value: date}, func(d c15Doc) bool { return d.internal.Day() >= day }
+	case 9:
+		key, ref = &command.SearchKeySentBefore{Value: date}, func(d c15Doc) bool { return d.sentD < day }
+	case 10:
+		key, ref = &command.SearchKeySentOn{Value: date}, func(d c15Doc) bool { return d.sentD == day }
+	case 11:
+		key, ref = &command.SearchKeySentSince{Value: date}, func(d c15Doc) bool { return d.sentD >= day }
+	}
+	neg := vsymChoice("not", 2) == 1
+	if neg {
+		key = &command.SearchKeyNot{Key: key}
+	}
+	res, err := mbox.Search(ctx, []command.SearchKey{key}, encoding.Nop.NewDecoder())
+	vsymAssert(err == nil, "SEARCH with a text / date key succeeds")
+	if err != nil {
+		return
+	}
+	pos := 0
+	for i, d := range docs {
+		in := pos < len(res) && res[pos] == uint32(i+1)
+		if in {
+			pos++
+		}
+		vsymAssert(in == (ref(d) != neg), "message is returned iff it satisfies the text / date key")
+	}
+	vsymAssert(pos == len(res), "nothing but messages of the view, ascending, no duplicates")
+	vsymCover("text-search")
 }
